@@ -282,7 +282,9 @@ def _sphere():
     return st.fixed_dictionaries({"k": st.just("sphere"), "n": st.sampled_from([1.5, 1.59, 1.2 + 0.1j, 2.0]).map(
         lambda v: [v.real, v.imag] if isinstance(v, complex) else [v, 0.0]),
         "r": st.one_of(_rad, st.lists(_rad, min_size=2, max_size=3).map(sorted)),
-        "c": st.tuples(_coord, _coord, _coord)})
+        "c": st.tuples(_coord, _coord, _coord),
+        # container of the centre: tuple, list, float array, integer array (when the coordinates are whole numbers)
+        "cform": st.sampled_from(["tuple", "tuple", "list", "array", "array"])})
 
 
 def _members(depth):
@@ -315,7 +317,9 @@ def build_member(d, leaf_only=False):
         r = d["r"]
         if isinstance(r, list):
             n = [n] * len(r)
-        return Sphere(n=n, r=r, center=tuple(d["c"]))
+        cf = d.get("cform", "tuple")
+        cc = tuple(d["c"]) if cf == "tuple" else (list(d["c"]) if cf == "list" else np.array(d["c"], dtype=float))
+        return Sphere(n=n, r=r, center=cc)
     if k == "spheres":
         return Spheres([build_member(x) for x in d["m"]], warn=False)
     cls = {"union": Union, "difference": Difference, "intersection": Intersection}[k]
